@@ -790,6 +790,12 @@ func oracleFmt(prop, x string, p *gen.Prog, res *core.ShardResult) *core.Violati
 		// its text must be found on a '#' line of the formatted text
 		want := hashLines(x)
 		have := hashLines(f1)
+		if hashCommands(t) {
+			// inside a task body a line that starts with '#' (after the first command) is a command to the
+			// pinned grammar, not a comment: such inputs are left to the comparison of the trees above
+			want = nil
+			res.Count("inputs_with_hash_commands_not_judged_by_text", 1)
+		}
 		for txt, n := range want {
 			if have[txt] < n {
 				return &core.Violation{Clause: "comment-lines-kept", Detail: fmt.Sprintf("the input holds %d line(s) \"#%s\", the formatted text %d: input %s (formatted %s)", n, txt, have[txt], qx, core.Trunc(strconv.Quote(f1), 300))}
@@ -802,6 +808,20 @@ func oracleFmt(prop, x string, p *gen.Prog, res *core.ShardResult) *core.Violati
 		}
 	}
 	return nil
+}
+
+// hashCommands reports whether some command of some task starts with '#'.
+func hashCommands(t ast.Tree) bool {
+	for _, n := range t.Nodes {
+		if v, ok := n.(ast.Task); ok {
+			for _, c := range v.Commands {
+				if strings.HasPrefix(strings.TrimSpace(c.Command), "#") {
+					return true
+				}
+			}
+		}
+	}
+	return false
 }
 
 // hashLines counts, by trimmed text, the lines whose first non-blank character is '#' (empty ones left out).
